@@ -480,8 +480,6 @@ class FrameFaults(Family):
                 return 'length:honoured', True
             if L == plen:
                 raise Viol('exact declared length rejected', 'message', repr(err)[:80])
-            if not isinstance(err, (SerializationError, ValueError)):
-                raise Viol('declared length %d: payload slice rejected with %s' % (L, type(err).__name__), 'SerializationError', repr(err)[:80])
             return 'length:slice-rejected', True
         if kind == 'cmd_garbage_after_nul':
             return 'skip', False
